@@ -23,6 +23,16 @@ def spin(*a, **k):
         time.sleep(0.01)
 
 
+def dig_in(*a, **k):
+    """a target which swallows the termination request: it has to be forced"""
+    t0 = time.time()
+    while time.time() - t0 < 120:
+        try:
+            time.sleep(0.01)
+        except Exception:
+            pass
+
+
 def start_server():
     from pyworkers.remote_server import spawn_server
     s = spawn_server(('127.0.0.1', 0))
